@@ -32,6 +32,10 @@ CHECKS = {
    text="For the 17 shipped model classes (dim 1-3, all parameters and the lag symbolic, every branch of the real cor/correlation code) the solver decides variogram = var+nugget-covariance, covariance = var·correlation, correlation(r) = cor(rescale·r/len_scale), the nugget-aware variants (differ only at r=0), the per-axis variants, and equality of the correlation with the documented closed form (14 classes; special functions as shared uninterpreted symbols, Matérn through an exp-log lemma); integral scale == closed-form integral of the correlation branch in use and integral_scale assignment (6 classes), percentile scale as root of the variogram fraction; user-defined models given by any one of cor/correlation/covariance/variogram yield the same derived functions.",
    note="exp_int (generalised exponential integral) is replaced by an uninterpreted E_s(x) -- its internal switches and the closed forms of the truncated-power-law correlations are outside; hurst fixed to 0.5 (thorough also 0.25) for TPL models; quad-based integral scales are opaque; inside np.isclose bands the limiting value is taken. Known findings: Matern nu>20 integral scale; TPL cor() vs correlation() for len_low>0.",
    technique="symbolic execution of the real model code + SMT equivalence with documented closed forms", ref="DESIGN.md §4 C03"),
+ "C15": dict(engine="E2-kernel", level="model_checking",
+   text="(a) The decythonised source of all kernel entry points is executed symbolically (guarded updates, NaN flags) and each output cell is proved equal to its defining sum: randomization / incompressible / Fourier mode sums (dim 1-3), c^T M k and k^T M k, variogram accumulators and counts vs pair enumeration with half-open bins (Euclidean and haversine, Matheron and Cressie, NaN skipping, direction test proved separately and then treated as an opaque predicate, separated directions = first match only, structured and masked grids) and the normalisation functions vs closed form. (b) For every prange loop an LIA query with unbounded extents shows that two different parallel iterations never write (or read-after-write) the same cell, and the clauses of the generated OpenMP pragmas are audited for thread-private scalars and absence of nowait. (c) set_num_threads for both OPENMP values. (d) Translation validation: the source semantics in concrete mode vs the installed .so on seeded random and boundary inputs (rtol 1e-12), and a scratch -fopenmp build of the generated C gives bit-identical results for num_threads in {None,1,2,3,4,8,16}.",
+   note="symbolic sizes are small (2-4 points, 2-3 modes/bins); the loop nests have no size-dependent branch; the .so cannot be regenerated from an edited .pyx (no Cython): a source edit is caught by (a)/(b) and shows up as source-vs-artefact disagreement in (d).",
+   technique="symbolic interpretation of the .pyx AST with state merging + SMT; LIA ownership queries; differential run against compiled artefacts", ref="DESIGN.md §4 C15"),
 }
 
 PENDING_REASON = "check not built yet in this session (work in progress; see DESIGN.md §7 build order)"
